@@ -446,7 +446,16 @@ def validate(d: dict, version: (float | None) = None) -> list:
 
     """
     v = Validator()
-    return v.validate(d, version=version)
+
+    # validate each root object against the schema of its own type
+    if isinstance(d, list):
+        messages = []
+        for root in d:
+            schema_name = root.get("__type__", "map")
+            messages += v.validate(root, schema_name=schema_name, version=version)
+        return messages
+
+    return v.validate(d, schema_name=d.get("__type__", "map"), version=version)
 
 
 def _save(output_file: str, string: str) -> None:
